@@ -17,8 +17,8 @@ RULE = ('a case = random well-formed configuration (2-6 arguments of the modelle
 TRUSTED_BASE = _c02.TRUSTED_BASE
 ASSUMPTIONS = _c02.ASSUMPTIONS + [
     'the theorems cover the spellings of ArgH/Spell.v (spell: long flag, --k=v, --k v, flag groups, glued and separate '
-    'value behind a short key) and of the extended grammar xspell (free values, "--"); "!", control characters and '
-    'arguments with an optional value (level counters) are covered by the correspondence only']
+    'value behind a short key) and of the extended grammar xspell (free values, "--", optional values); "!" and '
+    'control characters are covered by the correspondence only']
 
 
 def gen_cases(tier, rng):
@@ -81,12 +81,13 @@ CLAIM = {
     'text': 'Coq theorems (Properties_C01.v): for every configuration, every list of uses and EVERY legal spelling of '
             'it (inductive grammar: short/long key, abbreviation, "=", glued, separate, grouped flags ending in a '
             'value key; extended grammar xspell of ArgH/GenSim.v + HandlerSim.v: free values as words of their own - '
-            'further values of a multi-value argument, positional argument - and "--" followed by values) the model of the iterator + handler loop equals the spelling-free fold over the uses '
+            'further values of a multi-value argument, positional argument -, "--" followed by values, and arguments '
+            'with an optional value such as level counters: key alone, -vvv, --k=v, --k v, -k v) the model of the iterator + handler loop equals the spelling-free fold over the uses '
             '(simulation proof, unbounded); a use stores the converted value and leaves other destinations alone; '
             'exact keys and unambiguous abbreviations designate their argument in every definition order. Model tied '
             'to the code by correspondence on generated spellings with intended values as oracle.',
-    'note': 'staged: "!" (inversion), control characters and arguments with an optional value (level counters) are in '
-            'the model and the tie, not in the spelling grammar of the theorem; destination kinds outside the model are listed in the '
+    'note': 'staged: "!" (inversion) and control characters are in the model and the tie, not in the spelling grammar '
+            'of the theorem; destination kinds outside the model are listed in the '
             'evidence. trusted: Coq kernel, extraction, hand-written model validated by correspondence',
     'technique': 'Coq proof (simulation between argument-list iterator/handler loop and a fold over abstract uses, '
                  'induction over the spelling derivation) + model/implementation correspondence',
